@@ -341,4 +341,53 @@ def r5_cached_image_never_modified(ctx):
     r4_no_inplace_on_memoised(ctx)
 
 
-RULES = [r5_cached_image_never_modified, r1_no_stale_cache, r2_tables_agree, r3_alignment_exhaustive, r4_pure_shift]
+READERS = {
+    f"{LD}:load_image": {".fits": ("fits.getdata",), ".npy": ("np.load", "numpy.load"), ".txt": ("np.loadtxt", "numpy.loadtxt")},
+}
+
+
+def r6_handed_over_as_read(ctx):
+    """"Read back with the same shape and values": in load_image the value returned for the lossless formats (.fits, .npy, text) is exactly what the format's reader returned - one store per branch, the reader call itself, nothing applied to the result afterwards (no squeeze / reshape / transpose / astype / slicing); load_table lets the separator sniffer see the whole text it then parses."""
+    from sa.astutil import enclosing_tests, stores
+
+    n = 0
+    for q, readers in READERS.items():
+        f = ctx.func(q)
+        rets = [r for r in returns_of(f) if r.value is not None]
+        names = {dotted(r.value) for r in rets}
+        ok = len(names) == 1 and None not in names
+        ctx.check(ok, q + "#returns-the-read-data", "returns the variable the branches fill, untouched" if ok else f"the return value is computed after the dispatch ({sorted(norm(r.value)[:40] for r in rets)}): the data is not handed over as read", where=f, node=rets[0] if rets else f.node)
+        if not ok:
+            continue
+        rv = next(iter(names))
+        per_branch: dict[str, list] = {}
+        for st, t in stores(f.node, lambda t: dotted(t) == rv):
+            br = None
+            for tt, pol in enclosing_tests(st):
+                txt = norm(tt)
+                if pol and "suffix.startswith" in txt:
+                    br = next((k for k in readers if repr(k) in txt), "other")
+            if br is None:
+                ctx.fail(q + "#as-read", f"`{norm(st)[:70]}` changes the loaded data outside the format dispatch: every format is post-processed (shape / values no longer those of the file)", where=f, node=st)
+                continue
+            per_branch.setdefault(br, []).append(st)
+        for br, fns in readers.items():
+            sts = per_branch.get(br, [])
+            n += 1
+            val = getattr(sts[0], "value", None) if len(sts) == 1 else None
+            ok = isinstance(val, ast.Call) and call_name(val) in fns
+            ctx.check(ok, q + f"#as-read:{br}", f"{br}: the result of {fns[0]}(...) is returned as read" if ok else (f"{br}: the loaded array is rewritten {len(sts)} times in its branch (`{norm(sts[-1])[:60]}`): shape / values are not those stored in the file" if len(sts) != 1 else f"{br}: the branch stores `{norm(val)[:60]}` instead of the reader's result"), where=f, node=sts[-1] if sts else f.node)
+    f = ctx.func(f"{LD}:load_table")
+    sn = [c for c in calls_in(f.node) if isinstance(c.func, ast.Attribute) and c.func.attr == "sniff"]
+    rd = [c for c in calls_in(f.node) if call_name(c) == "StringIO" and c.args]
+    if len(sn) == 1 and sn[0].args:
+        n += 1
+        a = sn[0].args[0]
+        whole = isinstance(a, ast.Name) and all(isinstance(v_, ast.Call) and isinstance(v_.func, ast.Attribute) and v_.func.attr == "read" and not v_.args and not v_.keywords for _, v_ in local_defs(f, a.id) if v_ is not None) and bool(local_defs(f, a.id))
+        same = bool(rd) and all(dotted(c.args[0]) == dotted(a) for c in rd)
+        ok = whole and same
+        ctx.check(ok, f.qual + "#sniff-whole-text", "the separator is detected on the very text that is parsed" if ok else f"the separator sniffer is given `{norm(a)[:40]}`, not the whole text that is parsed: a cut through a line makes the detection fail and the table is read with the wrong separator", where=f, node=sn[0])
+    ctx.floor(n, 4)
+
+
+RULES = [r6_handed_over_as_read, r5_cached_image_never_modified, r1_no_stale_cache, r2_tables_agree, r3_alignment_exhaustive, r4_pure_shift]
